@@ -649,7 +649,7 @@ def same_obs(res, m):
 
 def main(tier, seed, replay=None):
     t0 = time.time()
-    proof = Proof(PROP)
+    proof = Proof(PROP, tier=tier)
     exe = None
     build_note = ""
     try:
@@ -668,7 +668,7 @@ def main(tier, seed, replay=None):
                     pops.append(load_case(os.path.join(cdir, fn)))
         pops.append(tagdelay_case())
         ncorpus = len(pops)
-        pops += gen_cases(rng, 60 if tier == "quick" else 1200, 35)
+        pops += gen_cases(rng, 60 if tier == "quick" else 4000, 35)
     impl, model, note, go_s = execute(pops, exe, "main")
     note = (build_note + " " + note).strip()
     known, fixed = known_findings(PROP)
@@ -711,7 +711,7 @@ def main(tier, seed, replay=None):
                         for s in vis.values() if eval_expr(sr["expr"], s, pop["_truth"])}
                 got = {(fi, si) for fi, si in sat if vis[pop["files"][fi][si]["id"]]["file"] == fi}
                 if not m["hyp"]:
-                    mwhy = ("hypothesis", "a lookup misses a stream index that the filters of the same part accept")
+                    mwhy = ("hypothesis", "a lookup misses a stream index that the filters of the same part accept, or a sorted section of an index file is not a permutation ordered by its key")
                 elif want != got:
                     mwhy = ("hypothesis", "compiled parts accept %s on the visible streams, the query denotes %s" % (sorted(got), sorted(want)))
                 if mwhy:
